@@ -61,7 +61,23 @@ def _file_of(path_val):
     return canon(FILE_TY, 'c18_file', coerce(path_val, T.NAME).term)
 
 
+_NATIVE_FILES = {}
+
+
 def _c18_file_native(path):
+    import json
+    import os
+    import h5py
+    st = os.stat(path)
+    key = (str(path), st.st_mtime_ns, st.st_size)
+    if key not in _NATIVE_FILES:
+        if len(_NATIVE_FILES) > 64:
+            _NATIVE_FILES.clear()
+        _NATIVE_FILES[key] = _read_file_native(path)
+    return _NATIVE_FILES[key]
+
+
+def _read_file_native(path):
     import json
     import h5py
     out = {}
